@@ -392,7 +392,7 @@ func genC06cmd(c *Ctx) {
 	}
 	cheap := func(p *tak.Position) bool { return cheapForSolvers(p, nodes, work) }
 	// (1) taktician analyze -prove / -dfpn on game files whose selected positions are a few plies from the end
-	for k := c.Scale(96, 9600); k > 0; k-- {
+	for k := c.Scale(96, 2400); k > 0; k-- {
 		size := 3
 		if r.Chance(1, 3) {
 			size = 4
@@ -459,7 +459,7 @@ func genC06cmd(c *Ctx) {
 		}
 	}
 	// (2) gencorpus -analysis dfpn: ONE worker, positions of both colours to move in one stream
-	for k := c.Scale(64, 6400); k > 0; k-- {
+	for k := c.Scale(64, 1600); k > 0; k-- {
 		size := 3
 		if r.Chance(1, 3) {
 			size = 4
@@ -530,7 +530,7 @@ func genC05cmd(c *Ctx) {
 	r := c.R
 	// (1) taktician analyze (minimax) on small games: one engine per colour under -all, a fresh one otherwise;
 	// engines that never sort (-sort=false, or depth 1), so that the model reproduces every line
-	for k := c.Scale(48, 6400); k > 0; k-- {
+	for k := c.Scale(48, 1600); k > 0; k-- {
 		size := 3
 		if r.Chance(1, 4) {
 			size = 4
@@ -613,7 +613,7 @@ func genC05cmd(c *Ctx) {
 	}
 	// (2) gencorpus -analysis minimax: one worker (one default engine against the clock) on positions near the end
 	// of small games; its labels against exhaustive search of the first plies.  -analysis none beside it.
-	for k := c.Scale(48, 4800); k > 0; k-- {
+	for k := c.Scale(48, 1200); k > 0; k-- {
 		size := 3 + r.Intn(2)
 		ps := corpusPositions(c, size, 2+r.Intn(3), func(*tak.Position) bool { return true })
 		if len(ps) == 0 {
